@@ -58,8 +58,8 @@ Notation exec0 := (@exec V oeq [] None _).
 Theorem snapshot_immutable vsn order when when' corder corder' (b b' : bucket V) vs ts vs' ts'
         m1 tr1 b1 r1 tr1' m1' m2 tr2 b2 r2 tr2' m2' :
   Named b -> reach oeq b b' ->
-  versions_ok_in c S b [PMerged; PCur] (apply_order_multi order vsn) vs ts ->
-  versions_ok_in c S b' [PMerged; PCur] (apply_order_multi order vsn) vs' ts' ->
+  versions_ok_in c S b [PCur; PMerged] (apply_order_multi order vsn) vs ts ->
+  versions_ok_in c S b' [PCur; PMerged] (apply_order_multi order vsn) vs' ts' ->
   exec0 m1 b (open c true (Some vsn) when order corder) tr1 b1 r1 tr1' m1' ->
   exec0 m2 b' (open c true (Some vsn) when' order corder') tr2 b2 r2 tr2' m2' ->
   exists h h', r1 = Done h /\ r2 = Done h' /\ h_tree h = h_tree h'.
